@@ -75,10 +75,16 @@ fn run_scanner(backend: u8, class: u8, data: &[u8], start: usize) -> usize {
             (B_SWAR, CL_URI) => simd::swar_uri(&mut b),
             (B_SWAR, CL_VALUE) => simd::swar_header_value(&mut b),
             (B_SWAR, _) => simd::swar_header_name(&mut b),
+            #[cfg(not(miri))]
             (B_SSE42, CL_URI) => simd::sse42_uri(&mut b),
+            #[cfg(not(miri))]
             (B_SSE42, _) => simd::sse42_header_value(&mut b),
+            #[cfg(not(miri))]
             (B_AVX2, CL_URI) => simd::avx2_uri(&mut b),
+            #[cfg(not(miri))]
             (B_AVX2, _) => simd::avx2_header_value(&mut b),
+            #[cfg(miri)]
+            (B_SSE42, _) | (B_AVX2, _) => {}
             (B_NEON, c) => neon_call(c, &mut b),
             (_, CL_URI) => simd::dispatch_uri(&mut b),
             (_, CL_VALUE) => simd::dispatch_header_value(&mut b),
